@@ -218,6 +218,11 @@ def gen_mirror(runner, tier, seed):
             if k % 3 == 0:
                 for pl in app_requests(r, tcpmode=True)[:4 if tier == "quick" else 9]:
                     flows.append((r.choice([p4, p6]), r.randrange(65536), r.choice([0, 65535, r.randrange(65536)]), r.randrange(1 << 32), [pl]))
+            if k % 100 == 99:                     # long runs are cut at table resets (validated in parallel)
+                s.send(frames)
+                tcp_batch(s, flows)
+                s.reset()
+                frames, flows = [], []
         s.send(frames)
         tcp_batch(s, flows)
     # STUN change-port on destination ports around the 16-bit wrap, both versions
